@@ -691,7 +691,13 @@ func (ls *LState) where(level int, skipg bool) string {
 	}
 	line := ""
 	if proto != nil {
-		line = fmt.Sprintf("%v:", proto.DbgSourcePositions[cf.Pc-1])
+		if cf.Pc > 0 {
+			line = fmt.Sprintf("%v:", proto.DbgSourcePositions[cf.Pc-1])
+		} else {
+			// a frame set up by a tail call that has not executed an instruction yet
+			// (an error raised while its registers are prepared, e.g. "registry overflow")
+			line = fmt.Sprintf("%v:", proto.LineDefined)
+		}
 	}
 	return fmt.Sprintf("%v:%v", sourcename, line)
 }
